@@ -271,6 +271,12 @@ impl Prop for C19 {
             idx[axis] = shape[axis] + rng.below(2) as usize;
             ops.push(Op::Get { index: idx });
         }
+        // coordinates so large that any unchecked stride arithmetic would overflow
+        for axis in 0..dims {
+            let mut idx: Vec<usize> = shape.iter().map(|&l| rng.below(l as u64) as usize).collect();
+            idx[axis] = *rng.pick(&[usize::MAX, usize::MAX / 2 + 1, 1usize << 32, usize::MAX - 1]);
+            ops.push(Op::Get { index: idx });
+        }
         let inr: Vec<usize> = shape.iter().map(|&l| rng.below(l as u64) as usize).collect();
         let mut short = inr.clone();
         short.pop();
